@@ -67,6 +67,15 @@ func newVerifier(tier string) (*Verifier, error) {
 			V.U.Sigs[sym] = &Sig{Name: sym, Res: "Str"}
 		}
 	}
+	for _, c := range V.U.prelude {
+		if c.Head() == "echo" && len(c.List) == 2 && strings.HasPrefix(strings.Trim(c.List[1].Atom, "\""), "ghostheap:") {
+			body := strings.TrimPrefix(strings.Trim(c.List[1].Atom, "\""), "ghostheap:")
+			i := strings.Index(body, " ")
+			key, elem := body[:i], strings.TrimSpace(body[i+1:])
+			V.U.heaps[key] = &heapInfo{Key: key, Sym: "H." + key, Elem: elem}
+			V.U.heapO = append(V.U.heapO, key)
+		}
+	}
 	for name, sg := range V.U.Sigs {
 		if strings.HasSuffix(name, ".unfold") {
 			V.unfolds[strings.TrimSuffix(name, ".unfold")] = sg
